@@ -1,122 +1,153 @@
 import DL.Lemmas.CFExec6
-import DL.Lemmas.CFReach
 
-/-! **Completeness of the closed-form reachability** on the fragment `inF` (where no statement is nested directly in an
-expression: `Kids.flowReach` is constantly false there; outside it over-approximates, see `DL.Props.C10Ref`). -/
+/-! **Completeness of the closed-form reachability**: every program point `Stmt.reach` says is reached, is reached by the
+inductive semantics.  Unconditional. -/
 namespace DL.CF
 
+theorem testN_inv {tt : Bool} {t : Kids} (h : (testCompl tt t).n = true) : EvalTest tt t .normal :=
+  testCompl_has_inv (fun o' => Kids.complete t o') h
+
+theorem goesRoundAny_inv (body : Stmt) (h : goesRoundAny (body.compl []) = true) :
+    ∃ o, Exec [] body o ∧ o.goesRoundAny = true := by
+  obtain ⟨o, h1, h2⟩ := (goesRoundAny_iff _).mp h
+  exact ⟨o, Stmt.complete body [] o h1, h2⟩
+
 mutual
-theorem Stmt.reach_complete : ∀ (s : Stmt) (p : Nat), s.inF = true → s.reach p = true → Reaches s p
-  | .simple q t kids, p, hf, h => by
-    have hk : kids.okF = true := by simpa [Stmt.inF] using hf
-    simp only [Stmt.reach, Kids.flowReach_okF kids p hk, Bool.or_false, beq_iff_eq] at h
-    subst h; exact .self _
-  | .block q body, p, hf, h => by
-    have hf' : body.inF = true := by simpa [Stmt.inF] using hf
+theorem Stmt.reach_complete : ∀ (s : Stmt) (p : Nat), s.reach p = true → Reaches s p
+  | .simple q t kids, p, h => by
     simp only [Stmt.reach, Bool.or_eq_true, beq_iff_eq] at h
     rcases h with rfl | h
     · exact .self _
-    · exact .block (Stmts.reach_complete body p hf' h)
-  | .ifS q t c none, p, hf, h => by
-    have hf' : t.okF = true ∧ c.inF = true := by simpa [Stmt.inF] using hf
+    · exact .simple_kids (Kids.flowReach_complete kids p h)
+  | .block q body, p, h => by
+    simp only [Stmt.reach, Bool.or_eq_true, beq_iff_eq] at h
+    rcases h with rfl | h
+    · exact .self _
+    · exact .block (Stmts.reach_complete body p h)
+  | .ifS q t c none, p, h => by
     simp only [Stmt.reach, Bool.or_eq_true, beq_iff_eq, Bool.and_eq_true] at h
-    rcases h with rfl | ⟨_, h⟩
+    rcases h with (rfl | h) | ⟨hn, h⟩
     · exact .self _
-    · exact .if_then (.normal _) (Stmt.reach_complete c p hf'.2 h)
-  | .ifS q t c (some a), p, hf, h => by
-    have hf' : (t.okF = true ∧ c.inF = true) ∧ a.inF = true := by simpa [Stmt.inF] using hf
+    · exact .if_test (Kids.flowReach_complete t p h)
+    · exact .if_then (Kids.complete t .normal hn) (Stmt.reach_complete c p h)
+  | .ifS q t c (some a), p, h => by
     simp only [Stmt.reach, Bool.or_eq_true, beq_iff_eq, Bool.and_eq_true] at h
-    rcases h with rfl | ⟨_, h | h⟩
+    rcases h with (rfl | h) | ⟨hn, h | h⟩
     · exact .self _
-    · exact .if_then (.normal _) (Stmt.reach_complete c p hf'.1.2 h)
-    · exact .if_else (.normal _) (Stmt.reach_complete a p hf'.2 h)
-  | .whileS q t tt b, p, hf, h => by
-    have hf' : t.okF = true ∧ b.inF = true := by simpa [Stmt.inF] using hf
-    simp only [Stmt.reach, Bool.or_eq_true, beq_iff_eq] at h
-    rcases h with rfl | h
+    · exact .if_test (Kids.flowReach_complete t p h)
+    · exact .if_then (Kids.complete t .normal hn) (Stmt.reach_complete c p h)
+    · exact .if_else (Kids.complete t .normal hn) (Stmt.reach_complete a p h)
+  | .whileS q t tt b, p, h => by
+    simp only [Stmt.reach, testComplOf_eq, Bool.or_eq_true, beq_iff_eq, Bool.and_eq_true] at h
+    rcases h with (rfl | h) | ⟨hn, h⟩
     · exact .self _
-    · exact .while_body (Stmt.reach_complete b p hf'.2 h)
-  | .doWhileS q b t tt, p, hf, h => by
-    have hf' : t.okF = true ∧ b.inF = true := by simpa [Stmt.inF] using hf
-    simp only [Stmt.reach, Bool.or_eq_true, beq_iff_eq] at h
-    rcases h with rfl | h
+    · exact .while_test (Kids.flowReach_complete t p h)
+    · exact .while_body (testN_inv hn) (Stmt.reach_complete b p h)
+  | .doWhileS q b t tt, p, h => by
+    simp only [Stmt.reach, Bool.or_eq_true, beq_iff_eq, Bool.and_eq_true] at h
+    rcases h with (rfl | h) | ⟨hg, h⟩
     · exact .self _
-    · exact .do_body (Stmt.reach_complete b p hf'.2 h)
-  | .forS q i u t ht tt b, p, hf, h => by
-    have hf' : ((i.okF = true ∧ u.okF = true) ∧ t.okF = true) ∧ b.inF = true := by simpa [Stmt.inF] using hf
-    simp only [Stmt.reach, Bool.or_eq_true, beq_iff_eq] at h
-    rcases h with rfl | h
+    · exact .do_body (Stmt.reach_complete b p h)
+    · obtain ⟨o, ho, hgo⟩ := goesRoundAny_inv b hg
+      exact .do_test ho hgo (Kids.flowReach_complete t p h)
+  | .forS q i u t ht tt b, p, h => by
+    simp only [Stmt.reach, testComplOf_eq, Bool.or_eq_true, beq_iff_eq, Bool.and_eq_true] at h
+    rcases h with (rfl | h) | ⟨hin, h | ⟨htn, h | ⟨hg, h⟩⟩⟩
     · exact .self _
-    · exact .for_body (Stmt.reach_complete b p hf'.2 h)
-  | .forInOf q l r b, p, hf, h => by
-    have hf' : (l.okF = true ∧ r.okF = true) ∧ b.inF = true := by simpa [Stmt.inF] using hf
-    simp only [Stmt.reach, Bool.or_eq_true, beq_iff_eq] at h
-    rcases h with rfl | h
+    · exact .for_init (Kids.flowReach_complete i p h)
+    · exact .for_test (Kids.complete i .normal hin) (Kids.flowReach_complete t p h)
+    · exact .for_body (Kids.complete i .normal hin) (testN_inv htn) (Stmt.reach_complete b p h)
+    · obtain ⟨o, ho, hgo⟩ := goesRoundAny_inv b hg
+      exact .for_update (Kids.complete i .normal hin) (testN_inv htn) ho hgo (Kids.flowReach_complete u p h)
+  | .forInOf q l r b, p, h => by
+    simp only [Stmt.reach, Bool.or_eq_true, beq_iff_eq, Bool.and_eq_true] at h
+    rcases h with (rfl | h) | ⟨hrn, h | ⟨hln, h⟩⟩
     · exact .self _
-    · exact .forIn_body (Stmt.reach_complete b p hf'.2 h)
-  | .switchS q d cs, p, hf, h => by
-    have hf' : d.okF = true ∧ cs.inF = true := by simpa [Stmt.inF] using hf
-    simp only [Stmt.reach, Bool.or_eq_true, beq_iff_eq] at h
-    rcases h with rfl | h
+    · exact .forIn_right (Kids.flowReach_complete r p h)
+    · exact .forIn_left (Kids.complete r .normal hrn) (Kids.flowReach_complete l p h)
+    · exact .forIn_body (Kids.complete r .normal hrn) (Kids.complete l .normal hln) (Stmt.reach_complete b p h)
+  | .switchS q d cs, p, h => by
+    simp only [Stmt.reach, Bool.or_eq_true, beq_iff_eq, Bool.and_eq_true] at h
+    rcases h with (rfl | h) | ⟨hdn, h⟩
     · exact .self _
-    · exact .switch (Cases.reach_complete cs p hf'.2 h)
-  | .tryS q bp block hh cp ck hf fp fin, p, hfr, h => by
-    have hf' : (((block.inF = true ∧ ck.okFn = true) ∧ fin.inF = true) ∧ (hh = true ∨ ck.isNil = true)) ∧ (hf = true ∨ fin.isNil = true) := by
-      simpa [Stmt.inF] using hfr
+    · exact .switch_disc (Kids.flowReach_complete d p h)
+    · exact .switch (Kids.complete d .normal hdn) (Cases.reach_complete cs p h)
+  | .tryS q bp block hh cp ck hf fp fin, p, h => by
     simp only [Stmt.reach, Bool.or_eq_true, beq_iff_eq, Bool.and_eq_true] at h
     rcases h with ((rfl | h) | ⟨⟨hh', ht⟩, h⟩) | ⟨⟨hf'', hany⟩, h⟩
     · exact .self _
-    · exact .try_block (Stmts.reach_complete block p hf'.1.1.1.1 h)
+    · exact .try_block (Stmts.reach_complete block p h)
     · subst hh'
-      exact .try_handler (Stmts.complete block .thr ht) (Kids.catchReach_complete ck p hf'.1.1.1.2 h)
+      exact .try_handler (Stmts.complete block .thr ht) (Kids.catchReach_complete ck p h)
     · subst hf''
       obtain ⟨o, ho⟩ := (Compl.any_iff _).mp hany
       exact .try_finalizer (tryCatch_complete block hh ck o (fun o' => Stmts.complete block o')
-        (fun o' => Kids.complete_catch ck o') ho) (Stmts.reach_complete fin p hf'.1.1.2 h)
-  | .labeled q l b, p, hf, h => by
-    have hf' : b.inF = true := by simpa [Stmt.inF] using hf
+        (fun o' => Kids.complete_catch ck o') ho) (Stmts.reach_complete fin p h)
+  | .labeled q l b, p, h => by
     simp only [Stmt.reach, Bool.or_eq_true, beq_iff_eq] at h
     rcases h with rfl | h
     · exact .self _
-    · exact .labeled (Stmt.reach_complete b p hf' h)
-  | .brk q l, p, _, h => by simp only [Stmt.reach, beq_iff_eq] at h; subst h; exact .self _
-  | .cont q l, p, _, h => by simp only [Stmt.reach, beq_iff_eq] at h; subst h; exact .self _
-  | .ret q a, p, _, h => by simp only [Stmt.reach, beq_iff_eq] at h; subst h; exact .self _
-  | .throw q a, p, _, h => by simp only [Stmt.reach, beq_iff_eq] at h; subst h; exact .self _
-theorem Stmts.reach_complete : ∀ (l : Stmts) (p : Nat), l.inF = true → l.reach p = true → ReachesList l p
-  | .nil, p, _, h => by simp [Stmts.reach] at h
-  | .cons s r, p, hf, h => by
-    have hf' : s.inF = true ∧ r.inF = true := by simpa [Stmts.inF] using hf
+    · exact .labeled (Stmt.reach_complete b p h)
+  | .brk q l, p, h => by simp only [Stmt.reach, beq_iff_eq] at h; subst h; exact .self _
+  | .cont q l, p, h => by simp only [Stmt.reach, beq_iff_eq] at h; subst h; exact .self _
+  | .ret q a, p, h => by
+    simp only [Stmt.reach, Bool.or_eq_true, beq_iff_eq] at h
+    rcases h with rfl | h
+    · exact .self _
+    · exact .ret_arg (Kids.flowReach_complete a p h)
+  | .throw q a, p, h => by
+    simp only [Stmt.reach, Bool.or_eq_true, beq_iff_eq] at h
+    rcases h with rfl | h
+    · exact .self _
+    · exact .throw_arg (Kids.flowReach_complete a p h)
+theorem Stmts.reach_complete : ∀ (l : Stmts) (p : Nat), l.reach p = true → ReachesList l p
+  | .nil, p, h => by simp [Stmts.reach] at h
+  | .cons s r, p, h => by
     simp only [Stmts.reach, Bool.or_eq_true, Bool.and_eq_true] at h
     rcases h with h | ⟨hn, h⟩
-    · exact .head (Stmt.reach_complete s p hf'.1 h)
-    · exact .tail (Stmt.complete s [] .normal hn) (Stmts.reach_complete r p hf'.2 h)
-theorem Cases.reach_complete : ∀ (cs : Cases) (p : Nat), cs.inF = true → cs.reach p = true → ReachesCases cs p
-  | .nil, p, _, h => by simp [Cases.reach] at h
-  | .cons q d t body r, p, hf, h => by
-    have hf' : (t.okF = true ∧ body.inF = true) ∧ r.inF = true := by simpa [Cases.inF] using hf
+    · exact .head (Stmt.reach_complete s p h)
+    · exact .tail (Stmt.complete s [] .normal hn) (Stmts.reach_complete r p h)
+theorem Cases.reach_complete : ∀ (cs : Cases) (p : Nat), cs.reach p = true → ReachesCases cs p
+  | .nil, p, h => by simp [Cases.reach] at h
+  | .cons q d t body r, p, h => by
     simp only [Cases.reach, Bool.or_eq_true, beq_iff_eq] at h
-    rcases h with (rfl | h) | h
+    rcases h with ((rfl | h) | h) | h
     · exact .clause
-    · exact .body (Stmts.reach_complete body p hf'.1.2 h)
-    · exact .later (Cases.reach_complete r p hf'.2 h)
-theorem Kids.catchReach_complete : ∀ (ks : Kids) (p : Nat), ks.okFn = true → ks.catchReach p = true → ReachesCatch ks p
-  | .nil, p, _, h => by simp [Kids.catchReach] at h
-  | .cons (.block q body) r, p, hf, h => by
-    have hf' : body.inF = true ∧ r.isNil = true := by simpa [Kids.okFn] using hf
+    · exact .test (Kids.flowReach_complete t p h)
+    · exact .body (Stmts.reach_complete body p h)
+    · exact .later (Cases.reach_complete r p h)
+theorem Kids.catchReach_complete : ∀ (ks : Kids) (p : Nat), ks.catchReach p = true → ReachesCatch ks p
+  | .nil, p, h => by simp [Kids.catchReach] at h
+  | .cons (.block q body) r, p, h => by
     simp only [Kids.catchReach, Bool.or_eq_true, beq_iff_eq] at h
     rcases h with rfl | h
     · exact .bodyBlock
-    · exact .body (Stmts.reach_complete body p hf'.1 h)
-  | .cons (.expr e ks) r, p, hf, h => by
-    have hf' : ks.okF = true ∧ r.okFn = true := by simpa [Kids.okFn] using hf
+    · exact .body (Stmts.reach_complete body p h)
+  | .cons (.expr e ks) r, p, h => by
     simp only [Kids.catchReach] at h
-    exact .param rfl (Kids.catchReach_complete r p hf'.2 h)
-  | .cons (.fnScope p' ks) r, p, hf, h => by
-    have hf' : ks.okFn = true ∧ r.okFn = true := by simpa [Kids.okFn] using hf
+    exact .param rfl (Kids.catchReach_complete r p h)
+  | .cons (.fnScope p' ks) r, p, h => by
     simp only [Kids.catchReach] at h
-    exact .param rfl (Kids.catchReach_complete r p hf'.2 h)
-  | .cons (.stmt _) _, _, hf, _ => by simp [Kids.okFn] at hf
+    exact .param rfl (Kids.catchReach_complete r p h)
+  | .cons (.stmt s) r, p, h => by
+    simp only [Kids.catchReach] at h
+    exact .param rfl (Kids.catchReach_complete r p h)
+theorem Kid.flowReach_complete : ∀ (k : Kid) (p : Nat), k.flowReach p = true → ReachesKid k p
+  | .expr e ks, p, h => by simp only [Kid.flowReach] at h; exact .expr (Kids.flowReach_complete ks p h)
+  | .fnScope _ _, p, h => by simp [Kid.flowReach] at h
+  | .block q body, p, h => by
+    simp only [Kid.flowReach, Bool.or_eq_true, beq_iff_eq] at h
+    rcases h with rfl | h
+    · exact .blockPos
+    · exact .block (Stmts.reach_complete body p h)
+  | .stmt s, p, h => by simp only [Kid.flowReach] at h; exact .stmt (Stmt.reach_complete s p h)
+theorem Kids.flowReach_complete : ∀ (ks : Kids) (p : Nat), ks.flowReach p = true → ReachesKids ks p
+  | .nil, p, h => by simp [Kids.flowReach] at h
+  | .cons k r, p, h => by
+    simp only [Kids.flowReach, Bool.or_eq_true, Bool.and_eq_true] at h
+    rcases h with h | ⟨hn, h⟩
+    · exact .head (Kid.flowReach_complete k p h)
+    · exact .tail (Kid.complete k .normal hn) (Kids.flowReach_complete r p h)
 end
 
 end DL.CF
